@@ -283,6 +283,30 @@ async def scenario(world: WorldA) -> None:
     def on_delivery(d: Dict[str, Any]) -> None:
         name = d["event"].name
         counts[name] = counts.get(name, 0) + 1
+        if name == "ERROR_TOO_MANY_RF_ERRORS" and not str(d["task"]).startswith("HARNESS"):
+            # "too many" is a matter of ONE connection: more RF-error datagrams than the limit must have reached the connection that says so
+            # (the connection = the one whose receive queue the delivering consumer task took its last RFERR from; it may be an abandoned one)
+            try:
+                me_task = asyncio.current_task()
+            except RuntimeError:
+                me_task = None
+            tr = None
+            for label, q in sysm.queues.items():
+                for it in reversed(q.items[-300:]):
+                    if it["item"][0].startswith(b"RFERR") and any(pp.get("by_obj") is me_task for pp in it["pops"]):
+                        tr = sysm.transports.get(label)
+                        break
+                if tr is not None:
+                    break
+            limit = int((cfg.get("consts") or {}).get("MAX_RF_ERRORS_BEFORE_HALT", 50))
+            if tr is not None:
+                n = sum(len(r.deliveries) for r in world.net.history if r.verb == "RFERR" and r.dst == tr.local)
+                if n <= limit:
+                    world.note(prop, "too-many-rf-errors-too-early", f"ERROR_TOO_MANY_RF_ERRORS delivered at {world.now():.3f} by {d['task']} although only {n} RFERR "
+                               f"datagram(s) had reached this connection ({tr.label}); the limit is {limit} per connection "
+                               f"(earlier connections of this run: {len(sysm.spas) - 1})", sig="too-many-rf-errors-too-early")
+                else:
+                    res.probe("too_many_rf_errors_after_more_than_the_limit")
         for op in triggers:
             if op.get("fired"):
                 continue
